@@ -999,13 +999,17 @@ impl PrunePlan {
             // if percentag is given, we want to have
             // unused <= p/100 * size_after = p/100 * (size_used + unused)
             // which equals (1 - p/100) * unused <= p/100 * size_used
-            (false, LimitOption::Percentage(p)) => (p * self.stats.size_sum().used) / (100 - p),
+            // 100% (or more) unused space allowed means: no limit
+            (false, LimitOption::Percentage(p)) if *p >= 100 => u64::MAX,
+            (false, LimitOption::Percentage(p)) => {
+                p.saturating_mul(self.stats.size_sum().used) / (100 - p)
+            }
         };
 
         let max_repack = match max_repack {
             LimitOption::Unlimited => u64::MAX,
             LimitOption::Size(size) => size.as_u64(),
-            LimitOption::Percentage(p) => (p * self.stats.size_sum().total()) / 100,
+            LimitOption::Percentage(p) => p.saturating_mul(self.stats.size_sum().total()) / 100,
         };
 
         self.repack_candidates.sort_unstable_by_key(|rc| rc.0);
